@@ -138,11 +138,47 @@ class Interp(_Base):
                 out.append((s, BoolV(is_all)))
         return out
 
+    def _next_genexp(self, n, st):
+        """next(<genexp>[, default]): the first element, lazily."""
+        g = n.args[0]
+        self._comp_frame(st)
+        key = "__next{}__".format(id(n))
+
+        def on_item(s):
+            res = []
+            for s2, v in self.ev(g.elt, s):
+                if isinstance(v, Raised):
+                    res.append((s2, v))
+                else:
+                    s2.frames[-1][key] = v
+                    res.append((s2, "stop"))
+            return res
+        out = []
+        for s, r in self._comp_iter(g, st, 0, on_item):
+            got = s.frames[-1].get(key)
+            s.frames.pop()
+            if isinstance(r, Raised):
+                out.append((s, r))
+            elif r == "unknown":
+                out.append((s, TopV("next over unknown iterable")))
+            elif r == "stop":
+                out.append((s, got))
+            elif len(n.args) > 1:
+                out.extend(self.ev(n.args[1], s))
+            else:
+                out.append((s, self.raised("stop-iteration", "StopIteration", n,
+                                           "next() of an exhausted generator without default")))
+        return out
+
     def ev_Call(self, n, st):
         if isinstance(n.func, ast.Name) and n.func.id in ("all", "any") and len(n.args) == 1 \
                 and isinstance(n.args[0], (ast.GeneratorExp, ast.ListComp)) \
                 and self.lookup(n.func.id, st, n)[1] is None:
             return self._all_any(n, st, n.func.id == "all")
+        if isinstance(n.func, ast.Name) and n.func.id == "next" and 1 <= len(n.args) <= 2 \
+                and isinstance(n.args[0], ast.GeneratorExp) and not n.keywords \
+                and self.lookup("next", st, n)[1] is None:
+            return self._next_genexp(n, st)
         out = []
         for s, fv in self.ev(n.func, st):
             if isinstance(fv, Raised):
@@ -156,14 +192,26 @@ class Interp(_Base):
                     out.append((s2, args))
                     continue
                 kw_nodes = [k.value for k in n.keywords]
-                if any(k.arg is None for k in n.keywords):
-                    out.append((s2, self.undecided(s2, n, "**kwargs call")))
-                    continue
                 for s3, kwv in self._ev_seq(kw_nodes, s2, lambda items: items):
                     if isinstance(kwv, Raised):
                         out.append((s3, kwv))
                         continue
-                    kwargs = {k.arg: v for k, v in zip(n.keywords, kwv)}
+                    kwargs = {}
+                    bad = None
+                    for k, v in zip(n.keywords, kwv):
+                        if k.arg is not None:
+                            kwargs[k.arg] = v
+                            continue
+                        # **mapping with constant string keys
+                        if isinstance(v, DictV) and all(
+                                isinstance(kv, StrV) and kv.is_const() for kv, _ in v.items):
+                            for kv, vv in v.items:
+                                kwargs[kv.const()] = vv
+                        else:
+                            bad = "**kwargs call"
+                    if bad:
+                        out.append((s3, self.undecided(s3, n, bad)))
+                        continue
                     out.extend(self.call(s3, fv, args, kwargs, n))
         return out
 
@@ -480,7 +528,10 @@ class Interp(_Base):
             seq = self._as_items(v)
             if seq is None:
                 return R(self.undecided(st, node, "enumerate of unknown iterable"))
-            start = args[1].lo if len(args) > 1 and isinstance(args[1], IntV) and args[1].is_const() else 0
+            sv = args[1] if len(args) > 1 else kwargs.get("start")
+            if sv is not None and not (isinstance(sv, IntV) and sv.is_const()):
+                return R(self.undecided(st, node, "enumerate start"))
+            start = sv.lo if sv is not None else 0
             return R(TupleV([TupleV([IntV(i + start, i + start), x]) for i, x in enumerate(seq)],
                             is_list=True))
         if name in ("tuple", "list", "sorted", "reversed"):
@@ -574,6 +625,20 @@ class Interp(_Base):
                     for v in _dedupe_vals(vals):
                         out.append((st.fork() if len(vals) > 1 else st, v))
                     return out or R(default)
+            if meth == "get" and isinstance(b, PyV) and isinstance(b.value, dict) and args and b.value \
+                    and isinstance(args[0], (EnumV, NoneV)):
+                k = args[0]
+                default = args[1] if len(args) > 1 else NONE
+                if isinstance(k, NoneV):
+                    return R(self.lift(b.value[None]) if None in b.value else default)
+                out = []
+                for nm in sorted(k.names):
+                    s2 = st.fork() if len(k.names) > 1 else st
+                    if len(k.names) > 1 and node.args:
+                        self._refine_expr(s2, node.args[0], EnumV(k.cls, {nm}))
+                    ek = e1.EnumVal(k.cls, nm, None)
+                    out.append((s2, self.lift(b.value[ek]) if ek in b.value else default))
+                return out
             if meth in ("get", "setdefault") and isinstance(b, PyV) and isinstance(b.value, dict) and args \
                     and not b.value:
                 # an (initially) empty module-level table: its call-time content is unknown; the
@@ -824,9 +889,11 @@ class Interp(_Base):
         return "UNCHECKED"
 
     # ------------------------------------------------------------------
-    def _match_call(self, st, mv, meth, args, node):
+    def _match_call(self, st, mv, meth, args, node, knode=None):
         obj = st.heap.get(mv.oid)
         text = obj.attrs.get("__pattern__") if obj else None
+        if meth == "groupdict" and not args and text is not None:
+            return [(st, GroupDictV(mv))]
         if meth != "group" or text is None:
             return [(st, self.undecided(st, node, "match." + meth))]
         if len(args) != 1:
@@ -841,7 +908,8 @@ class Interp(_Base):
         for gname in names:
             s0 = st.fork() if len(names) > 1 else st
             if len(names) > 1:
-                self._refine_expr(s0, node.args[0], StrV({gname}, sym=a.sym))
+                self._refine_expr(s0, knode if knode is not None else node.args[0],
+                                  StrV({gname}, sym=a.sym))
             g = P.group(gname)
             if g is None:
                 out.append((s0, self.raised("unknown-group", "IndexError", node,
